@@ -55,6 +55,11 @@ CHECKS = {
         note="Trusted: crash = drop every task/timer of the old engine epoch without running it, only the store survives; eviction through the guarded cache hook. Faults at quiescent points only (the statement's scope). An else-branch still `pending` at the end of a truncated history counts as `skipped` (it is decided lazily).",
         technique="deterministic simulation: crash/restart and eviction injected at every quiescent point, differential against the uninterrupted run",
         ref="DESIGN.md §6 C12"),
+    "C13": dict(
+        text="Seeded search over multisets of 2..12 (thorough: up to 64) concurrently started processes of 1..3 generated models with overlapping variable names and per-process valuations, cache capacities from 1 to above the process count (capacity below the count forces evictions and reloads in mid-flight), both store backends, seeded cross-process answer orders and schedules, and a second start with a live pid: each process's projection (message multiset up to ids, final task outcomes, terminal event and outputs) must equal the same (model, valuation, client table) run alone with the default cache; pids unique, duplicate start refused, no foreign pid in any message. Sampling: evidence, not proof.",
+        note="Trusted: moka behind the shim (maintenance applied eagerly so that evictions are a deterministic function of the operation sequence). Worker-thread counts are approximated by task-level interleaving (layer 1). Models without run-time generated acts (C12's recorded finding).",
+        technique="deterministic simulation: per-process projection of a loaded multi-process run vs solo runs, capacity-driven eviction faults",
+        ref="DESIGN.md §6 C13"),
     "C15": dict(
         text="Seeded search over parent/child(/grandchild) models, child endings (completed, error, aborted, missing model) and interleavings of the child's return with other parent activity: the calling act is open at every quiescent point before the child's terminal event, closed exactly once afterwards with the prescribed state/data/error, the child's inputs equal the call's options, the successor starts once and only after the call is closed, the parent's terminal event is generated after the child's. Sampling: evidence, not proof.",
         note="Trusted: H1 live dumps at quiescent points, id shim for event generation order. Child ending `skipped` is not reachable through client actions and is not generated.",
